@@ -217,7 +217,14 @@ func (this *DefaultOutputBitStream) flush() error {
 	}
 
 	if this.position > 0 {
-		if _, err := this.os.Write(this.buffer[0:this.position]); err != nil {
+		if n, err := this.os.Write(this.buffer[0:this.position]); err != nil {
+			if n > 0 && n <= this.position {
+				// The first n bytes have reached the sink: never send them again
+				copy(this.buffer, this.buffer[n:this.position])
+				this.written += (int64(n) << 3)
+				this.position -= n
+			}
+
 			return err
 		}
 
@@ -248,11 +255,20 @@ func (this *DefaultOutputBitStream) Close() error {
 	this.written -= int64(this.availBits - 64) // can be negative
 	this.availBits = 64
 
+	pendingBytes := this.position
+
 	if err := this.flush(); err != nil {
-		// Revert fields to allow subsequent attempts in case of transient failure
-		this.availBits = savedBitIndex
-		this.position = savedPosition
-		this.current = savedCurrent
+		if this.position == pendingBytes {
+			// Revert fields to allow subsequent attempts in case of transient failure
+			this.availBits = savedBitIndex
+			this.position = savedPosition
+			this.current = savedCurrent
+		} else {
+			// Part of the data has reached the sink: the remaining bytes (last ones
+			// included) stay in the buffer, a subsequent attempt sends only those
+			this.current = 0
+		}
+
 		return err
 	}
 
